@@ -107,6 +107,42 @@ func runC10(r *Run) {
 	r.rule("C10.R2", "avs precompile tx handlers: the AVS/task-contract address field of the params object is assigned from <contract param>.CallerAddress before the keeper call and nowhere else; owner membership (slices.Contains(owners, CallerAddress)) dominates the store mutation in the handler or in the keeper arm it selects", 10)
 	r.rule("C10.R3", "Msg handlers: the acting address handed to the keeper derives from the request field that GetSigners reads", 20)
 	r.rule("C10.R4", "every UpdateParams handler: `authority != msg.Authority` (optionally conjoined with IsMainnet(chainID), nothing weaker) leads to an error return before any call with a write effect; MsgUpdateParams.GetSigners reads Authority", 14)
+	// an offered public key is bound to the signer in the same slot (not to "some signer of the tx"): otherwise a
+	// co-signer without a recorded key gets the attacker's key recorded and its slot verified against it
+	if sv := w.View("app/ante/cosmos", "SetPubKeyDecorator.AnteHandle"); sv != nil {
+		ok, nLoops := true, 0
+		ast.Inspect(sv.Decl.Body, func(n ast.Node) bool {
+			rs, isR := n.(*ast.RangeStmt)
+			if !isR || rs.Key == nil || rs.Value == nil || !resolvesToMethod(sv, rs.X, "GetPubKeys") {
+				return true
+			}
+			nLoops++
+			idx, pk := sv.objOf(rs.Key), sv.objOf(rs.Value)
+			if !sv.rejectsWhen(rs.Body, func(f Fact) bool {
+				c, isC := stripParens(f.Atom).(*ast.CallExpr)
+				if !isC || f.Truth || exprString(c.Fun) != "bytes.Equal" || len(c.Args) != 2 {
+					return false
+				}
+				okPK, okSigner := false, false
+				for _, a := range c.Args {
+					if ac, isAC := stripParens(a).(*ast.CallExpr); isAC && strings.HasSuffix(exprString(ac.Fun), ".Address") && sv.objOf(rootIdent(ac.Fun)) == pk {
+						okPK = true
+					}
+					if ix, isIx := stripParens(a).(*ast.IndexExpr); isIx && sv.objOf(ix.Index) == idx && resolvesToMethod(sv, ix.X, "GetSigners") {
+						okSigner = true
+					}
+				}
+				return okPK && okSigner
+			}, func(f Fact) bool {
+				id, isID := stripParens(f.Atom).(*ast.Ident)
+				return isID && id.Name == "simulate" && !f.Truth
+			}) {
+				ok = false
+			}
+			return true
+		})
+		r.check(ok && nLoops >= 1, "C10.R3", "ante|pubkey-bound-to-signer-slot", sv.pos(sv.Decl), "a public key offered in slot i is rejected unless it is the key of signer i", "SetPubKeyDecorator does not reject a public key whose address differs from signers[i]: the key can be recorded for another signer of the transaction, whose signature slot is then verified against the attacker's key")
+	}
 	// the network test used by the authority checks covers every revision of the mainnet chain id
 	if mv := w.View("utils", "IsMainnet"); mv == nil {
 		r.bad("C10.R4", "IsMainnet|anchor", "-", "anchor", "utils.IsMainnet not found")
